@@ -893,3 +893,99 @@ Proof.
     split; [rewrite M; simpl; rewrite M1, M2, M3; ring|].
     rewrite Qd. simpl. ring.
 Qed.
+
+(* ------------------------------------------------------------------ algebraic core of Gauss's theorem over Q *)
+(* polynomials as coefficient lists (constant term first) *)
+Fixpoint peval (p : list Q) (x : Q) : Q := match p with [] => 0 | c :: r => c + x * peval r x end.
+(* a linear functional given by its moments m(0), m(1), ...: mf m j p = L(x^j p(x)) = sum_c p_c m(j+c) *)
+Fixpoint mf (m : nat -> Q) (j : nat) (p : list Q) : Q :=
+  match p with [] => 0 | c :: r => c * m j + mf m (S j) r end.
+(* (X - x) * p, as  ml x 0 p *)
+Fixpoint ml (x prev : Q) (p : list Q) : list Q :=
+  match p with [] => [prev] | c :: r => (prev - x * c) :: ml x c r end.
+Fixpoint nodepoly (xs : list Q) : list Q :=
+  match xs with [] => [1] | x :: r => ml x 0 (nodepoly r) end.
+
+Lemma peval_ml x t : forall p prev, peval (ml x prev p) t == prev + (t - x) * peval p t.
+Proof. induction p as [|c r IH]; intros prev; simpl; [ring|]. rewrite IH. ring. Qed.
+
+Lemma nodepoly_root xs x : In x xs -> peval (nodepoly xs) x == 0.
+Proof.
+  induction xs as [|y r IH]; intros Hin; [destruct Hin|]. simpl nodepoly. rewrite peval_ml.
+  destruct Hin as [->|Hin]; [ring | rewrite IH by exact Hin; ring].
+Qed.
+
+Lemma last_indep (l : list Q) d d' : l <> [] -> last l d = last l d'.
+Proof. induction l as [|a l IH]; [congruence|]. intros _. destruct l; [reflexivity|]. apply IH. congruence. Qed.
+
+Lemma ml_monic x : forall p prev, exists q, ml x prev p = q ++ [last p prev] /\ length q = length p.
+Proof.
+  induction p as [|c r IH]; intros prev; simpl ml.
+  - exists []. split; reflexivity.
+  - destruct (IH c) as [q [E L]]. exists ((prev - x * c) :: q). split; [|simpl; rewrite L; reflexivity].
+    rewrite E. simpl app. f_equal. f_equal. destruct r; [reflexivity|]. f_equal. apply last_indep. congruence.
+Qed.
+
+Lemma nodepoly_monic xs : exists q, nodepoly xs = q ++ [1] /\ length q = length xs.
+Proof.
+  induction xs as [|x r IH]; [exists []; split; reflexivity|].
+  destruct IH as [q [E L]]. simpl nodepoly. destruct (ml_monic x (nodepoly r) 0) as [q' [E' L']].
+  exists q'. split.
+  - rewrite E'. f_equal. f_equal. rewrite E. clear. induction q as [|a q IH]; [reflexivity|].
+    simpl app. destruct (q ++ [1]) eqn:D; [destruct q; discriminate|]. rewrite <- D. simpl last. rewrite D in *. exact IH.
+  - rewrite L', E, app_length, L. simpl. lia.
+Qed.
+
+Lemma mf_app m : forall a j b, mf m j (a ++ b) == mf m j a + mf m (j + length a) b.
+Proof.
+  induction a as [|c a IH]; intros j b; simpl.
+  - rewrite Nat.add_0_r. ring.
+  - rewrite IH. replace (S j + length a)%nat with (j + S (length a))%nat by lia. ring.
+Qed.
+
+Lemma mf_ext m m' : forall p j, (forall t, (j <= t < j + length p)%nat -> m t == m' t) -> mf m j p == mf m' j p.
+Proof.
+  induction p as [|c r IH]; intros j H; simpl; [reflexivity|].
+  rewrite (H j) by (simpl; lia). rewrite IH; [reflexivity|]. intros t Ht. apply H. simpl. lia.
+Qed.
+
+Lemma quad_ext_in {X} (nodes : list X) ws f g :
+  (forall x, In x nodes -> f x == g x) -> quad nodes ws f == quad nodes ws g.
+Proof.
+  unfold quad. revert ws. induction nodes as [|x r IH]; intros [|w ws] H; simpl; try reflexivity.
+  rewrite (H x) by (left; reflexivity). rewrite IH; [reflexivity|]. intros; apply H; right; assumption.
+Qed.
+
+(* the rule's own moment functional applied to x^j p(x) *)
+Lemma mf_quad nodes ws : forall p j,
+  mf (fun t => quad nodes ws (fun x => qpow x t)) j p == quad nodes ws (fun x => qpow x j * peval p x).
+Proof.
+  induction p as [|c r IH]; intros j; simpl.
+  - rewrite (quad_ext _ _ _ (fun _ => 0)) by (intros; ring). rewrite quad_zero. reflexivity.
+  - rewrite IH. rewrite <- quad_scale, <- quad_add. apply quad_ext. intros x. simpl. ring.
+Qed.
+
+(* If an n-point rule reproduces the moments m(0..n-1) (it is interpolatory) and the node polynomial
+   omega(x) = prod (x - x_i) is orthogonal to 1, x, ..., x^(n-1) for the functional with moments m,
+   then the rule reproduces m(0..2n-1).  No distinctness of the nodes is needed. *)
+Theorem gauss_core (nodes ws : list Q) (m : nat -> Q) :
+  let n := length nodes in
+  (forall k, (k < n)%nat -> quad nodes ws (fun x => qpow x k) == m k) ->
+  (forall j, (j < n)%nat -> mf m j (nodepoly nodes) == 0) ->
+  forall k, (k < 2 * n)%nat -> quad nodes ws (fun x => qpow x k) == m k.
+Proof.
+  intros n H1 H2. set (qm := fun t => quad nodes ws (fun x => qpow x t)).
+  destruct (nodepoly_monic nodes) as [om [Eom Lom]]. fold n in Lom.
+  assert (H3 : forall j, mf qm j (nodepoly nodes) == 0).
+  { intros j. unfold qm. rewrite mf_quad. rewrite (quad_ext_in _ _ _ (fun _ => 0)); [apply quad_zero|].
+    intros x Hx. rewrite nodepoly_root by exact Hx. ring. }
+  intros k. induction k as [k IH] using lt_wf_ind. intros Hk.
+  destruct (Nat.lt_ge_cases k n) as [Hlt|Hge]; [apply H1; exact Hlt|].
+  set (j := (k - n)%nat). assert (Hj : (j < n)%nat) by (unfold j; lia).
+  pose proof (H3 j) as Q0. pose proof (H2 j Hj) as L0. rewrite Eom in Q0, L0.
+  rewrite mf_app in Q0, L0. simpl mf in Q0, L0. rewrite Lom in Q0, L0.
+  replace (j + n)%nat with k in Q0, L0 by (unfold j; lia).
+  assert (E : mf qm j om == mf m j om).
+  { apply mf_ext. intros t Ht. unfold qm. apply IH; unfold j in *; lia. }
+  fold (qm k). rewrite E in Q0. lra.
+Qed.
